@@ -94,7 +94,13 @@ def local_origin(fn, l, depth, seen, maxdepth):
         else:
             terms.append(("resume",))
     if len(terms) == 1:
-        return terms[0]
+        t0 = terms[0]
+        # a struct literal whose fields are updated afterwards - directly (`x.f = ..`) or through a `&mut` handed to a method
+        # read in place - is not that literal any more: origins are not flow sensitive, so a field read must stay symbolic
+        # instead of resolving to the literal's initial component
+        if t0[0] == "agg" and not t0[1].startswith(("closure:", "tuple", "array")) and whole[0][2] == "assign" and (partial or l in _mut_borrowed(fn)):
+            return ("phi", (t0, ("built", l, fn.local_name(l), fn.local_ty(l))))
+        return t0
     # dedupe
     uniq = []
     for t in terms:
@@ -103,6 +109,21 @@ def local_origin(fn, l, depth, seen, maxdepth):
     if len(uniq) == 1:
         return uniq[0]
     return ("phi", tuple(uniq))
+
+
+def _mut_borrowed(fn):
+    """locals of which a `&mut` (of the whole or of a field) is taken somewhere in the body"""
+    mb = fn.j.get("_mut_borrowed")
+    if mb is None:
+        mb = set()
+        for b in fn.blocks:
+            if b.get("cleanup"):
+                continue
+            for s_ in b["stmts"]:
+                if s_["k"] == "assign" and s_["rv"]["k"] == "ref" and s_["rv"].get("mut") and "*" not in s_["rv"]["place"].get("p", []):
+                    mb.add(s_["rv"]["place"]["l"])
+        fn.j["_mut_borrowed"] = mb
+    return mb
 
 
 def call_origin(fn, t, depth, seen, maxdepth):
@@ -907,7 +928,8 @@ def eval_term(t, env_of):
         return None
     if k == "discr":
         x = eval_term(t[1], env_of)
-        if x in ("Some", "None") and len(t) > 3 and t[3]:
+        if isinstance(x, str) and len(t) > 3 and t[3]:
+            # 'Some' / 'None', or any other variant name the environment gives for an enum-valued leaf
             for (n, val) in t[3]:
                 if n == x:
                     return val
@@ -961,6 +983,13 @@ def explore_under(fn, env_of, limit=4000, avoid=(), capture=()):
             return v if isinstance(v, (bool, int)) else None
         if "l" in op and not op.get("p") and op["l"] in st:
             return st[op["l"]]
+        if "l" in op and op["l"] in st and isinstance(st[op["l"]], tuple) and st[op["l"]][0] == "V":
+            # payload of a tracked constant aggregate: `(x as Variant).N`
+            pr = [e for e in op.get("p", []) if e != "*"]
+            ag = st[op["l"]]
+            if len(pr) == 2 and isinstance(pr[0], str) and pr[0] == "as " + ag[1] and isinstance(pr[1], str) and pr[1][1:].isdigit() and int(pr[1][1:]) < len(ag[2]):
+                return ag[2][int(pr[1][1:])]
+            return None
         v = eval_term(origin(fn, op), env_of)
         return v
     while stack and n < limit:
@@ -983,6 +1012,14 @@ def explore_under(fn, env_of, limit=4000, avoid=(), capture=()):
             v = None
             if rv["k"] == "use" and rv.get("ops"):
                 v = val_of(rv["ops"][0], st)
+            elif rv["k"] == "agg" and rv.get("agg") == "adt" and rv.get("variant") and len(rv.get("ops", [])) <= 2:
+                # an enum value built from constants (`Ok(false)`) is followed to the match that takes it apart again
+                v = ("V", rv["variant"], tuple(val_of(o_, st) for o_ in rv.get("ops", [])))
+            elif rv["k"] == "discr" and "l" in rv.get("place", {}) and not rv["place"].get("p") and isinstance(st.get(rv["place"]["l"]), tuple):
+                v = None
+                for vv in rv.get("variants", []):
+                    if vv["name"] == st[rv["place"]["l"]][1]:
+                        v = vv["val"]
             else:
                 v = eval_term(rvalue_origin(fn, rv, 0, frozenset(), 40), env_of)
                 if v is None and rv["k"] == "discr" and "l" in rv.get("place", {}) and not rv["place"].get("p") and st.get(rv["place"]["l"]) in ("Some", "None"):
@@ -1014,6 +1051,9 @@ def explore_under(fn, env_of, limit=4000, avoid=(), capture=()):
                     v = (av[0] == "Some") == (fnm == "is_some")
                 elif fnm == "not" and av and isinstance(av[0], bool):
                     v = not av[0]
+                elif fnm == "branch" and av and isinstance(av[0], tuple) and av[0][0] == "V":
+                    # `?` on a tracked Result / Option
+                    v = ("V", "Continue", av[0][2]) if av[0][1] in ("Ok", "Some") else ("V", "Break", (None,))
             if v is None:
                 st.pop(t["dest"]["l"], None)
             else:
@@ -1032,6 +1072,15 @@ def explore_under(fn, env_of, limit=4000, avoid=(), capture=()):
     explore_under.undecided = undecided
     explore_under.captured = captured
     return out, visited
+
+
+def fdominates(fn, a, b):
+    """block a is on every *feasible* path from the entry to block b: like dominance, but a path that carries a constant into a
+    test that contradicts it (a helper returning `Ok(false)` on one arm, its caller leaving on `false`) does not count"""
+    if fn.dominates(a, b):
+        return True
+    _out, visited = explore_under(fn, lambda t: None, avoid={a})
+    return b not in visited
 
 
 def closures_in_term(t, out=None):
